@@ -173,6 +173,9 @@ func (drl *dkgRetryLoop) start(
 		// Set up the announcement phase stop signal.
 		announceCtx, cancelAnnounceCtx := context.WithCancel(ctx)
 		announcementEndBlock := announcementStartBlock + dkgAttemptAnnouncementActiveBlocks
+		// The goroutine may outlive the current loop iteration so it must
+		// not read the attempt counter the loop modifies.
+		announcedAttempt := drl.attemptCounter
 		go func() {
 			defer cancelAnnounceCtx()
 
@@ -182,7 +185,7 @@ func (drl *dkgRetryLoop) start(
 						"block [%v] for attempt [%v]: [%v]",
 					drl.memberIndex,
 					announcementEndBlock,
-					drl.attemptCounter,
+					announcedAttempt,
 					err,
 				)
 			}
